@@ -12,6 +12,10 @@ walk; at the end the manifest is written and the written file reloaded.  The
 same pools rendered as documents at header versions 1.0 / 1.1 / 1.2 must be
 rejected at and above 1.1 when they contain a colliding pair.
 identify_image is cross-checked three ways (object, serialised dict, model).
+
+Later additions: `del manifest[variant]` inside the add histories (the model forgets the variant's cells; the same
+object under two variants, one deleted, then the rival), a clean one-image document loaded INTO the non-empty manifest
+(outcome not judged, the invariant is), and older documents that file source images under 'src'.
 """
 import copy
 import json
